@@ -778,7 +778,9 @@ class Interp:
                             return IntV(d % (1 << self.cenum_bits[dn]), self.cenum_bits[dn], 0)
                         return Agg('enum', dn, last, fields)
         if len(segs) >= 2 and segs[-2][:1].isupper() and _strip_angle(segs[-2]) not in ('Self',) and form != 'struct' and last[:1].isupper():
-            # enum of a crate we have no declaration for
+            # enum (or associated const) of a crate we have no declaration for
+            if self.uc:
+                return LazyV('const ' + path)
             raise Unsupported('aggregate of undeclared enum %s' % path)
         return Agg('struct', _strip_angle(last), None, fields)
 
@@ -889,7 +891,15 @@ class Interp:
                 h = self.models.get(key)
                 if h is None:
                     continue
-            r = h(self, callee, args)
+            try:
+                r = h(self, callee, args)
+            except (AttributeError, TypeError, Unsupported, KeyError, IndexError) as e:
+                # under-constrained mode: a library model asked about an unconstrained receiver -> havoc the call
+                if self.uc and self._any_lazy(args):
+                    res = LazyV('ret:' + key)
+                    self.trace.append((callee, args, res, tuple(self.stack)))
+                    return res
+                raise
             if r is not NotImplemented:
                 self.model_hits[k2] = self.model_hits.get(k2, 0) + 1
                 return r
@@ -906,6 +916,19 @@ class Interp:
             self.trace.append((callee, args, res, tuple(self.stack)))
             return res
         raise Unsupported('call %s  [key %s]' % (callee, key))
+
+    def _any_lazy(self, args):
+        for a in args:
+            n = 0
+            while isinstance(a, RefV) and n < 8:
+                try:
+                    a = a.get()
+                except Exception:
+                    break
+                n += 1
+            if isinstance(a, LazyV):
+                return True
+        return False
 
     def call_closure(self, clo, args):
         if isinstance(clo, RefV):
@@ -951,6 +974,8 @@ class Interp:
                 for s in stmts:
                     self.steps += 1
                     if s[0] == 'assign':
+                        if s[2][0] == 'closure' and self._closure_short(s[2]):
+                            s = self._fix_closure_operands(b, bb, s)
                         v = self.rvalue(s[2], frame)
                         pl = s[1]
                         if pl[0] == 'local':
@@ -1040,6 +1065,77 @@ class Interp:
 
     def on_drop(self, ref, frame, body, place):
         pass
+
+    # rustc's MIR pretty-printer zips the captured *variables* with the aggregate's operands, so a closure that captures
+    # two disjoint fields of one variable (precise captures) is printed with fewer operands than it has.  The missing
+    # tail operands are recovered from the temporaries assigned just before the aggregate, matched by declared type;
+    # anything ambiguous is Unsupported.
+    def _closure_need(self, name):
+        key = ('need', name)
+        if key not in self._adtcache:
+            cb = self.closures.get(name)
+            tys = {}
+            if cb is not None:
+                texts = []
+                for bbn, (st, term) in cb.blocks.items():
+                    texts.extend(st); texts.append(term)
+                texts.append(cb.header)
+                for t in texts:
+                    for m in re.finditer(r'\((?:\(\*_1\)|_1)\.(\d+): ', t):
+                        i = m.end(); d = 0; j = i
+                        while j < len(t):
+                            if t[j] in '(<[':
+                                d += 1
+                            elif t[j] in ')>]' and not (t[j] == '>' and t[j - 1] == '-'):
+                                if d == 0:
+                                    break
+                                d -= 1
+                            j += 1
+                        tys[int(m.group(1))] = t[i:j].strip()
+            self._adtcache[key] = tys
+        return self._adtcache[key]
+
+    def _closure_short(self, rv):
+        tys = self._closure_need(rv[1])
+        return bool(tys) and (max(tys) + 1) > len(rv[2])
+
+    def _fix_closure_operands(self, b, bb, s):
+        rv = s[2]
+        tys = self._closure_need(rv[1])
+        need = max(tys) + 1
+        stmts_raw, _ = b.blocks[bb]
+        # position of this aggregate in the raw block text
+        idx = None
+        for i, raw in enumerate(stmts_raw):
+            if raw.startswith(s[1][1] + ' = {closure@') if s[1][0] == 'local' else False:
+                idx = i
+        if idx is None:
+            raise Unsupported('closure aggregate with truncated operand list (rustc pretty-printer) could not be located')
+        used = set(o[1][1] for o in rv[2] if o[0] in ('move', 'copy') and o[1][0] == 'local')
+        cands = []
+        for raw in stmts_raw[:idx]:
+            m = re.match(r'^(_\d+) = ', raw)
+            if m and m.group(1) not in used:
+                cands.append(m.group(1))
+        types = dict(b.locals); types.update(dict(b.args))
+        fields = list(rv[2])
+        for i in range(len(fields), need):
+            want = tys.get(i)
+            match = [c for c in cands if want is not None and types.get(c, '').replace("'_", "'_") == want and c not in used]
+            if len(match) != 1:
+                # tolerate lifetime spelling differences
+                norm = lambda t: re.sub(r"'\w+\s*", '', t or '')
+                match = [c for c in cands if want is not None and norm(types.get(c)) == norm(want) and c not in used]
+            if len(match) < 1:
+                raise Unsupported('closure aggregate printed with %d of %d captures and the missing operand (type %s) cannot be identified' % (len(rv[2]), need, want))
+            c = match[-1]
+            used.add(c); fields.append(('move', ('local', c)))
+        fixed = ('assign', s[1], ('closure', rv[1], fields))
+        cs, term = b.compiled[bb]
+        for i, x in enumerate(cs):
+            if x is s:
+                cs[i] = fixed
+        return fixed
 
 
 class PyFn:
